@@ -57,6 +57,10 @@ def open_store(kind: str, tag: str):
 def prepare(store, pre: str, fmt: int):
     import zarr
 
+    if pre == "emptydir":  # an existing directory that is not (yet) a zarr group; only meaningful for path-like targets
+        import os
+
+        os.makedirs(str(store), exist_ok=True)
     if pre == "foreign":
         g = zarr.open_group(store, mode="a", zarr_format=fmt)
         g.attrs["foo"] = {"bar": 1}
